@@ -343,7 +343,7 @@ func (e *Event) Len() (length int) {
 // supports), which may be useful if you are trying to check and see if a message is
 // too long, to trim it down yourself.
 func (e *Event) LenOpts(includeTags bool) (length int) {
-	if e.Tags != nil {
+	if len(e.Tags) > 0 {
 		// Include tags and trailing space.
 		length = e.Tags.Len() + 1
 	}
